@@ -610,7 +610,9 @@ def impl(case):
     votes, kw = _args(case)
     watch = []
     res = guarded(lambda: enc(call_obj(root.obj, votes, kw, watch)))
-    flags = [[bool(vcore.accepts_seats(b.obj)), bool(vcore.accepts_prev_gains(b.obj))] for b in root.preorder()]
+    ams = getattr(vcore, 'accepts_max_seats', None)
+    flags = [[bool(vcore.accepts_seats(b.obj)), bool(vcore.accepts_prev_gains(b.obj)),
+              bool(ams(b.obj)) if ams else None] for b in root.preorder()]
     return {'res': res, 'flags': flags, 'mutated': bool(watch)}
 
 
